@@ -263,7 +263,7 @@ func TestVerif_C19Conc(t *testing.T) {
 			stuck = true
 		}
 		if !shutdownDone.Load() && !stuck {
-			p.Close()
+			stuck = !v19CloseBounded(p)
 		}
 		time.Sleep(2 * time.Millisecond)
 		w.mu.Lock()
@@ -337,14 +337,15 @@ func TestVerif_C19Conc(t *testing.T) {
 				logEv(fmt.Sprintf("EUse %s %s", cN(2), cN(c.(*v19Conn).id)))
 			}
 		}()
+		stuckD := false
 		if !closedPool {
-			p.Close()
+			stuckD = !v19CloseBounded(p)
 		}
 		time.Sleep(500 * time.Microsecond)
 		w.mu.Lock()
 		lg := cList(w.log)
 		w.mu.Unlock()
-		out.Case(fmt.Sprintf("CConc %s %s false", lg, cN(panics)))
+		out.Case(fmt.Sprintf("CConc %s %s %s", lg, cN(panics), cBool(stuckD)))
 		directed++
 	}
 	out.Stat("directed-interleavings", directed)
@@ -413,7 +414,7 @@ func TestVerif_C19Conc(t *testing.T) {
 			stuck = true
 		}
 		if !closedPool.Load() && !stuck {
-			p.Close()
+			stuck = !v19CloseBounded(p)
 		}
 		time.Sleep(500 * time.Microsecond)
 		w.mu.Lock()
@@ -628,4 +629,21 @@ func TestVerif_C19Conc(t *testing.T) {
 		}
 	}
 	out.Stat("expired-bucket-bursts", burst)
+}
+
+// v19CloseBounded closes the pool and reports whether Close returned: an operation that panicked
+// while it held the pool's lock leaves it locked for good, and Close would wait for ever.
+func v19CloseBounded(p *P) bool {
+	fin := make(chan struct{})
+	go func() {
+		defer func() { recover() }()
+		p.Close()
+		close(fin)
+	}()
+	select {
+	case <-fin:
+		return true
+	case <-time.After(3 * time.Second):
+		return false
+	}
 }
